@@ -93,6 +93,21 @@ def run(tier):
                 ok_payload = same(e2.payload, payload)
                 ok_number = name in signals and e2.signal == signals[name] and isinstance(e2.signal, int)
                 stable = all(signals[k] == v for k, v in before.items())
+                # a receiver that changes the payload it got must not change what the next decode of the same text gives
+                if isinstance(e2.payload, list):
+                    e2.payload.append("mutated by the receiver")
+                elif isinstance(e2.payload, dict):
+                    e2.payload["mutated"] = "by the receiver"
+                if isinstance(e2.payload, (list, dict)):
+                    e3 = Event.loads(text)
+                    if not same(e3.payload, payload) or e3.payload is e2.payload:
+                        res.add(Violation("C26/payload-shared-between-decodes", "decoding %r, changing the payload received and decoding the same text "
+                                          "again gave %r, expected %r" % (text, e3.payload, payload), {"name": name, "payload": repr(payload), "text": text}))
+                    for sub_a, sub_b in zip(_containers(e3.payload), _containers(e2.payload)):
+                        if sub_a is sub_b:
+                            res.add(Violation("C26/payload-shared-between-decodes", "two decodes of %r share a nested container" % (text,),
+                                              {"name": name, "payload": repr(payload), "text": text}))
+                            break
                 if not (ok_name and ok_payload and ok_number and stable):
                     clause = "name" if not ok_name else "payload" if not ok_payload else "number" if not ok_number else "registry-changed"
                     res.add(Violation("C26/%s" % clause, "round trip of name %r payload %r gave name %r payload %r number %r" % (
@@ -113,6 +128,20 @@ def run(tier):
                     "samples": samples, "exhaustive": True}
     res.assumptions = ["payload equality is type-strict (1 != True, 1 != 1.0)"]
     return res
+
+
+def _containers(p):
+    """nested lists/dicts of a payload, depth first"""
+    if isinstance(p, list):
+        for x in p:
+            if isinstance(x, (list, dict)):
+                yield x
+                yield from _containers(x)
+    elif isinstance(p, dict):
+        for x in p.values():
+            if isinstance(x, (list, dict)):
+                yield x
+                yield from _containers(x)
 
 
 def _shape(p):
